@@ -15,7 +15,7 @@ from verifsim import core, harness, sched
 
 PROP = "C23"
 STYPES = ["sym", "float", "list", "ndarray", "ndarray_nc", "ndarray_f", "ndarray_0d", "ndarray_mixed", "field", "multifield",
-          "tuple", "str", "ndarray_empty", "pyint"]
+          "tuple", "str", "ndarray_empty", "pyint", "field_f2d"]
 
 
 class Sym:
@@ -98,6 +98,11 @@ def summands(n, stype):
         return out
     if stype == "ndarray_f":
         return [np.asfortranarray(rng.uniform(0.5, 1.5, (2, 3)) * 10.0 ** rng.integers(-9, 9, (2, 3)))
+                for _ in range(n)]
+    if stype == "field_f2d":
+        # fields over a 2-d domain whose values are Fortran-ordered in memory (legal: a Field keeps the array it is given)
+        d2 = ift.RGSpace((2, 3))
+        return [ift.makeField(d2, np.asfortranarray(rng.uniform(0.5, 1.5, (2, 3)) * 10.0 ** rng.integers(-9, 9, (2, 3))))
                 for _ in range(n)]
     dom = ift.RGSpace(5)
     if stype == "field":
